@@ -489,7 +489,8 @@ class Renderer:
                 self.tok(key, "id")
                 self.gap("opt", want_space=True)
                 self.tok("=")
-                self.gap("opt", want_space=True)
+                # (the value of a configuration pair may stand on a later line)
+                self.gap("mopt", want_space=True)
                 self.expr(val, s.scope)
             self.depth -= 1
             self.gap("stmt")
